@@ -376,6 +376,25 @@ descriptor; `stream` digests a one-shot reader with the algorithm it is asked fo
 inductive Gen | fixed | stream | failing
   deriving DecidableEq, Repr, FromJson, ToJson
 
+/-- how the envelope bytes the plugin hands over are framed: `asIs`; `untagged` (first byte dropped: a COSE_Sign1
+without its tag 18); `doubleTag` (first byte repeated); `trailingByte` (a byte after the message); `indefinite`
+(COSE: the four-element array in indefinite-length encoding; JWS: a second JSON value appended); `jsonWs` (JSON
+blanks before and after: fine for JWS, no CBOR) -/
+inductive Wrap | asIs | untagged | doubleTag | trailingByte | indefinite | jsonWs
+  deriving DecidableEq, Repr, FromJson, ToJson
+
+/-- an EARLIER call on the same PluginSigner value: the scenario of the main call with these answers instead
+(and, for SignBlob, a generator that simply returns the requested descriptor) -/
+structure Step where
+  api : Api
+  cap : Cap
+  dkKeyIdOk : Bool
+  dkKeySpec : String
+  gsKeyIdOk : Bool
+  echo : Echo
+  sigMode : SigMode
+  deriving Repr, FromJson
+
 structure Desc where
   mediaType : String
   digest : String
@@ -413,6 +432,8 @@ structure Input where
   blob : String              -- SignBlob with a stream generator: the blob (the harness digests it; not read here)
   honest : Bool              -- the plugin signs the request's payload bytes as they are (`payload` is then the
                              -- canonical payload of `req`); not read here
+  wrap : Wrap                -- framing of the envelope bytes
+  history : List Step        -- earlier calls on the same signer value (own per-call PluginConfig, own answers)
   dupKeys : Bool             -- redundant: `payload.dupDeep` (checked by a clause)
   emptyAnnMap : Bool         -- the request carries an empty non-nil annotation map (nothing reads the difference)
   deriving Repr, FromJson
@@ -425,13 +446,15 @@ inductive Outcome | sig | err | panic
 
 structure Obs where
   outcome : Outcome
-  payloadOk : Bool   -- sig: the returned envelope carries exactly the checked payload bytes
+  payloadOk : Bool   -- sig: what is returned parses with the parser of the REQUESTED format, is byte for byte what
+                     -- the plugin handed over and was checked, and carries exactly the checked payload bytes
   leafOk : Bool      -- sig: signerInfo's leaf certificate is the leaf of the plugin's chain
+  earlier : List Outcome   -- the outcomes of the earlier calls on the same signer value, in call order
   deriving DecidableEq, Repr, FromJson, ToJson
 
-def errObs : Obs := ⟨.err, false, false⟩
-def sigObs : Obs := ⟨.sig, true, true⟩
-def panicObs : Obs := ⟨.panic, false, false⟩
+def errObs : Obs := ⟨.err, false, false, []⟩
+def sigObs : Obs := ⟨.sig, true, true, []⟩
+def panicObs : Obs := ⟨.panic, false, false, []⟩
 
 /-! ### codecs (tables regenerated from plugin/proto/algorithm.go) -/
 
@@ -500,6 +523,9 @@ def scanUnknown (checked : Bool) : JVal → Scan
 def jsonWs (s : String) : Bool :=
   s.toList.all (fun c => c == ' ' || c == '\t' || c == '\n' || c == '\r')
 
+/-- the registered parser of the format accepts the framing -/
+def wrapParses (i : Input) : Bool := i.wrap == .asIs || (i.wrap == .jsonWs && i.envFmt == .jws)
+
 /-- the payload bytes are ONE JSON document: `json.Unmarshal` (whole-input syntax check) accepts
 nothing but insignificant whitespace around the value -/
 def singleDocument (i : Input) : Bool := jsonWs i.lead && jsonWs i.trail
@@ -528,7 +554,7 @@ def getKeySpec (i : Input) : Option Spec :=
 def envelopePath (i : Input) : Obs :=
   if i.pluginErr == .generate then errObs
   else if !i.echoOk then errObs
-  else if i.garbage || i.envFmt != i.format then errObs       -- signature.ParseEnvelope
+  else if i.garbage || i.envFmt != i.format || !wrapParses i then errObs   -- signature.ParseEnvelope
   else if !verifyOk i then errObs                             -- sigEnv.Verify()
   else if !i.ctypeOk then errObs                              -- ValidatePayloadContentType
   else if !singleDocument i then errObs                       -- json.Unmarshal: syntax check of ALL bytes
@@ -580,6 +606,15 @@ def run (i : Input) : Obs :=
         else if hasRaw i.cap then rawPath i ks
         else if hasEnvelope i.cap then envelopePath i
         else errObs
+
+/-- the scenario of an earlier call -/
+def Step.apply (s : Step) (i : Input) : Input :=
+  { i with api := s.api, cap := s.cap, dkKeyIdOk := s.dkKeyIdOk, dkKeySpec := s.dkKeySpec, gsKeyIdOk := s.gsKeyIdOk,
+           echo := s.echo, sigMode := s.sigMode, gen := .fixed, history := [] }
+
+/-- every call on a signer value is answered on its own: nothing is carried from call to call -/
+def runAll (i : Input) : Obs :=
+  { run i with earlier := i.history.map (fun s => (run (s.apply i)).outcome) }
 
 /-! ### the property -/
 
@@ -666,7 +701,7 @@ def required (i : Input) : Bool :=
   match pathOf i with
   | .refused => false
   | .envelope =>
-    i.echoOk && !i.garbage && i.envFmt == i.format &&   -- requested format
+    i.echoOk && !i.garbage && i.envFmt == i.format && wrapParses i &&   -- requested format, as its parser reads it
     verifyOk i &&                                       -- verifies under its own chain
     i.ctypeOk &&                                        -- Notary payload type
     singleDocument i &&                                 -- the signed bytes are one JSON document …
@@ -688,10 +723,14 @@ def clauses (i : Input) (o : Obs) : Clauses :=
         (sees i.req (exactView i.payload) && sees i.req (firstView i.payload))),
     ("unambiguous_payload",
       o.outcome != .sig || pathOf i != .envelope || !i.payload.dupDeep),
-    ("returned_signature_is_the_checked_one", o.outcome != .sig || (o.payloadOk && o.leafOk)) ]
+    ("returned_signature_is_the_checked_one", o.outcome != .sig || (o.payloadOk && o.leafOk)),
+    ("earlier_calls_all_answered", o.earlier.length == i.history.length),
+    ("earlier_calls_never_panic", o.earlier.all (· != .panic)),
+    ("earlier_signature_only_if_checked",
+      (o.earlier.zip i.history).all (fun p => p.1 != .sig || required (p.2.apply i))) ]
 
 def Holds (i : Input) (o : Obs) : Bool := (clauses i o).holds
 
-def judge := judgeWith run clauses
+def judge := judgeWith runAll clauses
 
 end NotationModel.C18
